@@ -232,7 +232,7 @@ func run() int {
 			rep.Missing = append(rep.Missing, MissingFn{Key: k, Props: c.propList(), File: c.File})
 			continue
 		}
-		ex := &Exec{prog: l.prog, db: db, fset: l.prog.Fset, maxPaths: 4000, loopCache: map[*ssa.Function]*LoopInfo{}, usedUnknown: map[string]bool{}, usedContracts: map[string]bool{}, prop: prop, siteOrd: map[*ssa.Function]map[ssa.Instruction]int{}, trackCache: map[*Contract]map[string]bool{}}
+		ex := &Exec{callCovers: tier == "thorough" || os.Getenv("GOVC_CALL_COVERS") != "", prog: l.prog, db: db, fset: l.prog.Fset, maxPaths: 4000, loopCache: map[*ssa.Function]*LoopInfo{}, usedUnknown: map[string]bool{}, usedContracts: map[string]bool{}, prop: prop, siteOrd: map[*ssa.Function]map[ssa.Instruction]int{}, trackCache: map[*Contract]map[string]bool{}}
 		if c.PathCap > 0 {
 			ex.maxPaths = c.PathCap
 		}
